@@ -109,6 +109,14 @@ def build_harness():
                 return False, out + out1
             HOOKS['ok'], HOOKS['note'] = False, 'the hooks (stack/verif_hooks.go, tag verif) no longer compile against the tree: ' + out.strip()[-400:]
         rc2, out2 = run(['go', 'build', '-o', os.path.join(BUILD, 'pp'), './cmd/pp'], cwd=REPO, env=GOENV, timeout=1200)
+        # hook for pp's text renderer (internal/verif_hooks.go + internal/verifcmd, tag verif); without it op pp reports
+        # corr:pp-internal-hook-unavailable for C14
+        vint = os.path.join(BUILD, 'vint')
+        rc3, _ = run(['go', 'build', '-tags', 'verif', '-o', vint + '.new', './internal/verifcmd'], cwd=REPO, env=GOENV, timeout=1200)
+        if rc3 == 0:
+            os.replace(vint + '.new', vint)   # atomically: another check may be running its cases
+        elif os.path.exists(vint):
+            os.unlink(vint)
         return rc2 == 0, out + out2
 
 
